@@ -157,6 +157,11 @@ ACLDomainData::parse()
 {
     while (char *t = ConfigParser::strtokFile()) {
         Tolower(t);
+        // Redundant leading dots make a value that is not its own duplicate for
+        // Compare() (matchDomainName() strips all leading dots of a host but
+        // only one of a domain); "..example.com" can only mean ".example.com".
+        while (t[0] == '.' && t[1] == '.')
+            ++t;
         Acl::SplayInserter<char*>::Merge(domains, xstrdup(t));
     }
 }
